@@ -14,6 +14,8 @@ _unk_counter = itertools.count()
 
 INT_TYPES = {"usize", "u8", "u16", "u32", "u64", "u128", "isize", "i8", "i16", "i32", "i64", "i128"}
 
+INT_WIDTH = {"usize": 64, "u8": 8, "u16": 16, "u32": 32, "u64": 64, "u128": 128, "isize": 64, "i8": 8, "i16": 16, "i32": 32, "i64": 64, "i128": 128}
+
 STD_LEN = ("core::slice::<impl [T]>::len", "alloc::vec::Vec::len", "core::slice::len",
            "std::vec::Vec::len", "alloc::boxed::Box::len", "alloc::string::String::len", "core::str::<impl str>::len")
 
@@ -52,6 +54,7 @@ class Termizer:
         self.env = {}       # local id -> term
         self.mut_locals = set()
         self.inline = inline  # optional Inliner
+        self.keep_narrowing = False
 
     def fresh(self, n):
         return ("unk", "%s@%s" % (n.get("k"), n.get("s", next(_unk_counter))))
@@ -79,7 +82,11 @@ class Termizer:
         if k == "Field":
             return ("field", self.term(n["e"]), n["name"])
         if k == "Index":
-            return ("index", self.term(n["e"]), self.term(n["i"]))
+            bt = self.term(n["e"])
+            it = self.term(n["i"])
+            if bt[0] == "arr" and it[0] == "int" and 0 <= it[1] < len(bt) - 1:
+                return bt[1 + it[1]]
+            return ("index", bt, it)
         if k == "AddrOf":
             return self.term(n["e"])
         if k == "Unary":
@@ -91,6 +98,8 @@ class Termizer:
             inner = self.term(n["e"])
             st = F.ty(n["e"])
             if t in INT_TYPES and (st in INT_TYPES or st == ""):
+                if self.keep_narrowing and st in INT_WIDTH and INT_WIDTH.get(t, 64) < INT_WIDTH[st]:
+                    return ("cast", t, inner)
                 return inner
             return ("cast", t, inner)
         if k == "Binary":
@@ -118,6 +127,8 @@ class Termizer:
             return self.fresh(n)
         if k == "Tup":
             return ("tup",) + tuple(self.term(a) for a in n["es"])
+        if k == "Array":
+            return ("arr",) + tuple(self.term(a) for a in n["es"])
         if k == "Struct":
             nm = strip_generics(F.defpath(n) or "?")
             return ("struct", nm, tuple((f["name"], self.term(f["e"])) for f in n["fields"]))
@@ -151,6 +162,19 @@ COMMUTATIVE = {"+", "*", "&", "|", "^", "min", "max", "==", "!=", "&&", "||"}
 
 
 def mk_op(op, l, r):
+    z = ("int", 0)
+    if op in ("+", "|", "^") and l == z:
+        return r
+    if op in ("+", "|", "^", "-", "<<", ">>") and r == z:
+        return l
+    if op in ("*", "&") and (l == z or r == z):
+        return z
+    if op in ("<<", ">>") and l == z:
+        return z
+    if op == "*" and l == ("int", 1):
+        return r
+    if op == "*" and r == ("int", 1):
+        return l
     if op == "+" or op == "-":
         # fold integer literals: (x + a) + b
         if r[0] == "int" and l[0] == "int":
@@ -313,6 +337,8 @@ def tshow(t):
         return str(t[1]).lower()
     if h == "tup":
         return "(" + ", ".join(tshow(a) for a in t[1:]) + ")"
+    if h == "arr":
+        return "[" + ", ".join(tshow(a) for a in t[1:]) + "]"
     if h == "struct":
         return "%s{%s}" % (t[1].split("::")[-1], ", ".join("%s: %s" % (a, tshow(b)) for a, b in t[2]))
     return str(t)
